@@ -168,6 +168,7 @@ type wireTok struct {
 	issuer  string
 	intFlt  bool
 	rawStr  bool
+	base    map[string]string // decoder -> result of the first interleaved decode of the honest bytes
 }
 
 type wireExec struct {
@@ -638,7 +639,7 @@ func (e *wireExec) offer(data []byte, codec, kind string, few, meter bool) []acc
 			prelude = "" // (the exhaustive enumerations offer to few decoders: a quarter of them is interleaved)
 		}
 	}
-	for _, dec := range decs {
+	for di, dec := range decs {
 		var tk token.Token
 		var c cid.Cid
 		var err error
@@ -648,7 +649,27 @@ func (e *wireExec) offer(data []byte, codec, kind string, few, meter bool) []acc
 				hb = e.cur.json
 			}
 			if hb != nil {
-				guardT(o, prelude, len(hb), false, func() { _, _, _ = runDecoder(prelude, e.cur.spec.Kind, hb) })
+				var htk token.Token
+				var herr error
+				guardT(o, prelude, len(hb), false, func() { htk, _, herr = runDecoder(prelude, e.cur.spec.Kind, hb) })
+				if di == 0 && !strings.HasPrefix(prelude, "other.") {
+					// ... and the honest token still reads as what it is, whatever was offered before
+					// (held against the FIRST such decode of this token in the run, so that nothing is
+					// assumed about what an honest token decodes to: that is the round-trip monitor's job)
+					o.Eval("C07")
+					res := "error"
+					if herr == nil && !isNilTok(htk) {
+						res = recOf(htk).Content()
+					}
+					if e.cur.base == nil {
+						e.cur.base = map[string]string{}
+					}
+					if first, seen := e.cur.base[prelude]; !seen {
+						e.cur.base[prelude] = res
+					} else if first != res {
+						o.Violate("C07", "decode-not-repeatable", fmt.Sprintf("%s gives another result for the same honest bytes after other (damaged) input was offered in between (first: error=%v, now: error=%v)", prelude, first == "error", res == "error"), map[string]string{"alg": e.cur.alg, "when": "interleaved"})
+					}
+				}
 			}
 		}
 		keep := string(data)
